@@ -5,6 +5,7 @@ CONSTANTS
   MaxExtCli = 2
   MaxKe = 1
   MaxCases = 2
+  ScDev = 2
   Wide = FALSE
   ExtLenZeroLoops = FALSE
   NonceLenUnchecked = FALSE
@@ -12,5 +13,11 @@ CONSTANTS
   PacketOverflowUnchecked = FALSE
   ShortUniqueIdEchoed = FALSE
   CsptpShortDatagram = FALSE
+  ScionReverseUnchecked = FALSE
+  ScionAddrLenUnchecked = FALSE
+  ScionAuthOptUnchecked = FALSE
+  ScionMacErrPanics = FALSE
+  ScionTsOptUnchecked = FALSE
+  ScionTsOptTrusted = FALSE
 INVARIANTS TypeOK OutcomeConsistent NeverDead NoSpin SentinelNotLost
 PROPERTIES Progress SentinelServed
